@@ -404,6 +404,14 @@ impl Renderable for TableRow {
             .trace_with(|| self.trace().into())?;
         let array = range.evaluate()?;
         let cols = evaluate_attr(&self.cols, runtime)?;
+        if let Some(cols) = cols {
+            // zero divides by zero below; a negative value arrives here as a huge `usize`
+            if cols == 0 || cols > i64::MAX as usize {
+                return Error::with_msg("`cols` must be a positive whole number")
+                    .trace(self.trace())
+                    .into_err();
+            }
+        }
         let limit = evaluate_attr(&self.limit, runtime)?;
         let offset = evaluate_attr(&self.offset, runtime)?.unwrap_or(0);
         let array = iter_array(array, limit, offset, false);
